@@ -1186,6 +1186,73 @@ def rule_r17(prog, res):
               c05._index_order, prog, Result)
 
 
+def rule_r18(prog, res):
+    from . import c09
+    from ..report import Result
+    res.share('R18', 'the status line and the body of a fault come from the '
+              'same protocol (C09-R5)', 'C09', c09.rule_r5, prog, Result)
+
+
+def rule_r19(prog, res):
+    res.rule('R19', 'a binary decoder that builds its error message with '
+             'bytes has made the value bytes on every path that reaches the '
+             'message (a handler is reached from anywhere in its try body)')
+    m = prog.module('spyne.model.binary')
+    n = 0
+    for q, f in sorted(m.functions.items()):
+        if not f.name.startswith('from_'):
+            continue
+        params = [a.arg for a in f.node.args.args]
+        for b in walk_no_defs(f.node):
+            if not (isinstance(b, ast.BinOp) and isinstance(b.op, ast.Add)):
+                continue
+            sides = [b.left, b.right]
+            if not any(isinstance(x, ast.Constant) and isinstance(
+                    x.value, bytes) for x in sides):
+                continue
+            other = [x for x in sides if not isinstance(x, ast.Constant)]
+            names = {y.id for x in other for y in ast.walk(x)
+                     if isinstance(y, ast.Name) and y.id in params}
+            for nm in sorted(names):
+                n += 1
+                # statements that enclose the operation, with their blocks
+                chain = []
+                cur = b
+                while cur is not None and cur is not f.node:
+                    if isinstance(cur, ast.stmt):
+                        chain.append(cur)
+                    cur = parent(cur)
+                dominated = False
+                for st in chain:
+                    p_ = parent(st)
+                    for fld in ('body', 'orelse', 'finalbody'):
+                        blk = getattr(p_, fld, None)
+                        if isinstance(blk, list) and st in blk:
+                            for prev in blk[:blk.index(st)]:
+                                if isinstance(prev, ast.If) and \
+                                        'text_type' in unparse(prev.test) \
+                                        and nm in unparse(prev.test) and any(
+                                            isinstance(a, ast.Assign) and
+                                            unparse(a.targets[0]) == nm and
+                                            '.encode(' in unparse(a.value)
+                                            for a in prev.body):
+                                    dominated = True
+                where = '%s:%d' % (m.relpath, b.lineno)
+                res.ob('R19', where, '%s: %s is joined with bytes; made bytes '
+                       'on every path: %s' % (q, nm, dominated),
+                       'ok' if dominated else 'VIOLATED')
+                if not dominated:
+                    res.finding('R19', '%s|text-joined-with-bytes|%s' % (
+                        q, nm), where, '%s builds "%s": %s can still be text '
+                        'there (its conversion to bytes does not come before '
+                        'every path to this line), so for long invalid text '
+                        'the handler raises TypeError instead of '
+                        'ValidationError and the request ends in an '
+                        'unhandled error, not a Client fault' % (
+                            q, unparse(b)[:50], nm))
+    res.floor('R19', 'bytes-joined error messages in binary decoders', n, 1)
+
+
 def run(prog, res, tier):
     res.run_rule(rule_r8, prog, res)
     res.run_rule(rule_r7, prog, res)
@@ -1203,6 +1270,8 @@ def run(prog, res, tier):
     res.run_rule(rule_r15, prog, res)
     res.run_rule(rule_r16, prog, res)
     res.run_rule(rule_r17, prog, res)
+    res.run_rule(rule_r18, prog, res)
+    res.run_rule(rule_r19, prog, res)
     res.run_rule(rule_r4, prog, res, tier)
     res.run_rule(rule_r5, prog, res)
     res.run_rule(rule_r6, prog, res, tier)
@@ -1220,6 +1289,17 @@ _H = 'spyne/protocol/dictdoc/hier.py'
 _MI = 'spyne/protocol/soap/mime.py'
 
 MUTANTS = [
+    Mutant('urlsafe-text-encoded-inside-try', 'R19', 'fire',
+           'spyne/model/binary.py',
+           in_func('ByteArray.from_urlsafe_base64',
+                   "        if isinstance(value, six.text_type):\n"
+                   "            value = value.encode('utf8')\n"
+                   "        try:\n",
+                   "        try:\n"
+                   "            if isinstance(value, six.text_type):\n"
+                   "                value = value.encode('utf8')\n"
+                   "                return (urlsafe_b64decode(value),)\n"),
+           'text-joined-with-bytes'),
     Mutant('offset-minutes-optional', 'R3', 'fire',
            'spyne/model/primitive/datetime.py',
            in_func(None, "OFFSET_PATTERN = r'(?P<tz_hr>[+-]\\d{2}):(?P<tz_min>"
